@@ -443,7 +443,7 @@ pub fn run(args: Args) -> ! {
             }
         }
     }
-    let run = run_tape("C11.values", &prop, 16, args.tier.pick(400_000, 20_000_000), args.seed, workers());
+    let run = run_tape("C11.values", &prop, 16, args.tier.pick(2_000_000, 40_000_000), args.seed, workers());
     finish_run(&mut rep, "values", run);
     for c in ["i64", "f64", "f32", "serde-width", "i64-boundary", "f64-boundary"] {
         rep.require_class(c);
